@@ -378,7 +378,7 @@ def signed_angle(u, v):
 
 
 # ----------------------------------------------------------------------------- reference EM (Gaussian families)
-def ref_gmm(y, init, iterations, covariance_type):
+def ref_gmm(y, init, iterations, covariance_type, conditioning=None):
     """Textbook EM for a Gaussian mixture written from the formulas (weights = mean posterior, weighted mean,
     weighted scatter; densities through solve / slogdet), independent of pb_bss and sklearn.
     y (N, D), init (K, N).  Returns (posterior of the model after `iterations` M-steps, its means)."""
@@ -396,6 +396,9 @@ def ref_gmm(y, init, iterations, covariance_type):
                 S = np.diag(np.diag(S))
             elif covariance_type == 'spherical':
                 S = np.eye(D) * np.trace(S) / D
+            if conditioning is not None:
+                ev = np.linalg.eigvalsh(S)
+                conditioning.append(float(ev[0] / ev[-1]) if ev[-1] > 0 else 0.0)
             sol = np.linalg.solve(S, d.T)
             lp[k] = -0.5 * (D * np.log(2 * np.pi) + np.linalg.slogdet(S)[1] + np.sum(d.T * sol, axis=0))
         a = lp + np.log(w)[:, None]
